@@ -36,7 +36,7 @@ ok1, o1 = demo()
 res["demo_with_change_fails"] = not ok1
 sh("git checkout -- . && git clean -fdq tests")
 print(json.dumps(res, indent=1))
-dst = os.path.join("/verif/seeded", "%s-%s" % (pid, n))
+dst = os.path.join("/verif/seeded", "%s-%s%s" % (pid, os.environ.get("SEED_TAG", ""), n))
 os.makedirs(dst, exist_ok=True)
 for f in os.listdir(out):
     shutil.copy(os.path.join(out, f), dst)
